@@ -139,6 +139,24 @@ Definition run_search (ts : list tok) : list tok :=
   | [] => bad
   end.
 
+Definition K_refparse := Eval compute in s2l "refparse".
+
+(** refparse <text> : the reference parser (sentence oracle of C03/C04) *)
+Definition run_refparse (ts : list tok) : list tok :=
+  match ts with
+  | [t] =>
+      match parse_str t with
+      | Some text =>
+          match ref_parse text with
+          | Ok a => K_OK :: pr_ast a
+          | Err _ => [K_ERR; K_parse]
+          | Trap => [K_TRAP] | OOF => [K_OOF] | Unmodelled => [K_UNMODELLED]
+          end
+      | None => bad
+      end
+  | _ => bad
+  end.
+
 Definition K_speceval := Eval compute in s2l "speceval".
 
 (** speceval <text> <ast> <doc> : the specification's value for a core tree (oracle of the violation search) *)
@@ -171,6 +189,7 @@ Definition run_tokens (ts : list tok) : list tok :=
       else if str_eqb k K_fn then run_fn r
       else if str_eqb k K_parse_k then run_parse r
       else if str_eqb k K_speceval then run_speceval r
+      else if str_eqb k K_refparse then run_refparse r
       else if str_eqb k K_search then run_search r
       else bad
   | [] => bad
